@@ -99,6 +99,8 @@ func genSpecialUser(t *rapid.T, n int) world.UserSpec {
 		}
 		u.Custom = append(u.Custom, ca)
 	}
+	// the user store may fill in defaults first and override them (every setter called twice; the last call is the record)
+	u.Overridden = rapid.IntRange(0, 3).Draw(t, "overridden") == 0
 	return u
 }
 
